@@ -214,6 +214,18 @@ pub fn families(tier: Tier) -> Vec<(&'static str, Vec<Case>)> {
         }
         fams.push(("F2b-token-soup-char-edits", v));
     }
+    // F2c: sequences with literals that carry lexical errors (their error ranges are absolute
+    // and have to move with the tokens), character-level edits
+    {
+        let alpha: Vec<&str> = vec!["a", ";", "99999999999", "0x", "'", "1"];
+        let seqs = Strings::new(&alpha, tier.pick(3, 4));
+        let repl_strs: Vec<String> = ["", "b ", ";"].iter().map(|s| s.to_string()).collect();
+        let mut v = vec![];
+        for i in 0..seqs.count() {
+            single_edit_cases("F2c-error-carrying-literals", &seqs.get_joined(i, " "), &repl_strs, &mut v);
+        }
+        fams.push(("F2c-error-carrying-literals", v));
+    }
     // F4: generated programs, every 0..2-token window replaced by 0..1 token
     {
         let items = progs::syntactic_family(Tier::Quick);
